@@ -197,6 +197,16 @@ func ruleCleanup(c *Ctx, entries []regEntry) {
 				if isFlush(ds.Call) {
 					return []Event{{Kind: "defer-flush", Node: ds}}
 				}
+				// a deferred closure that flushes unconditionally
+				if fl, ok := ds.Call.Fun.(*ast.FuncLit); ok {
+					for _, st := range fl.Body.List {
+						if es, ok := st.(*ast.ExprStmt); ok {
+							if call, ok := es.X.(*ast.CallExpr); ok && isFlush(call) {
+								return []Event{{Kind: "defer-flush", Node: ds}}
+							}
+						}
+					}
+				}
 				return nil
 			}
 			inspectNoFuncLit(nd, func(m ast.Node) bool {
